@@ -1,8 +1,165 @@
+(** C10 — Spilling data to disk is invisible and leaves no files behind.
+    Model: FV.Spill (Output._pack/_unpack/_clear_data/finalize, TimeCachingAdapter and
+    TimeIntegrationAdapter buffers, the _interpolate variants of all seven buffering slot kinds).
+    This file contains only statements; proofs are in FVP.Spill_proofs.
+
+    Every theorem quantifies over
+      - the payload type [P], the file content type [F] and ANY [save]/[load] with
+        [load (save p) = p]  (np.save | MaskedArray.dump / np.load: an explicit premise, not an axiom);
+      - every slot configuration [c]: kind (KOutput with the Output eviction rule — minimum of the
+        consumers' last requests —, KNext/KPrev/KLinear/KStep n d with the time-caching rule,
+        KAvg/KSum with the [_prev_time] rule), every limit [option Z] (None, Some 0, negative,
+        anything crossed mid-run), location and slot id;
+      - every op sequence: pushes of any payload/size/time, pulls by any key at any time,
+        finalize, and [Env g] = arbitrary interference with all files that are not named
+        "<location>/<id>-*" (other slots, other programs);
+      - every initial file system that has no file named like the slot's files. *)
 From Coq Require Import List ZArith Bool.
 From FV Require Import Base Spill.
 From FVP Require Import Spill_proofs.
 Import ListNotations.
 Open Scope Z_scope.
-Theorem C10_stub : forall (E X : Type) (f : E -> X) t0 b, last_time t0 (mapb f b) = last_time t0 b.
-Proof. exact @last_time_map. Qed.
-Print Assumptions C10_stub.
+
+(** Every pull of the limited slot reads exactly the payloads (same publications, same order, no
+    read failure on either side) that the same slot without a limit reads: the list of what all
+    pulls delivered is identical, errors (the inner [None]) included. *)
+Theorem C10_transparent :
+  forall (P F : Type) (save : P -> F) (load : F -> P),
+    (forall p, load (save p) = p) ->
+    forall (c : config) (keys : list nat) (fs0 fs0' : fsys F) (ops : list (op P F)),
+      own_part (c_dir c) (c_sid c) fs0 = [] ->
+      delivered save load c (init keys fs0) ops
+      = delivered save load (unlimited c) (init keys fs0') ops.
+Proof. intros P F. exact (@transparent P F). Qed.
+
+(** No pull ever hits a missing file: every delivered payload is [Some _]. *)
+Theorem C10_reads_succeed :
+  forall (P F : Type) (save : P -> F) (load : F -> P),
+    (forall p, load (save p) = p) ->
+    forall (c : config) (keys : list nat) (fs0 : fsys F) (ops : list (op P F)),
+      own_part (c_dir c) (c_sid c) fs0 = [] ->
+      Forall good_result (delivered save load c (init keys fs0) ops).
+Proof. intros P F. exact (@reads_succeed P F). Qed.
+
+(** The files ever created by the slot are "<dir>/<id>-0", ..., "<dir>/<id>-(n-1)" in this order
+    (n = the final counter): all below the location with the slot's id, pairwise distinct; and
+    every os.remove hit an existing file. *)
+Theorem C10_files_confined :
+  forall (P F : Type) (save : P -> F) (load : F -> P),
+    (forall p, load (save p) = p) ->
+    forall (c : config) (keys : list nat) (fs0 : fsys F) (ops : list (op P F)),
+      own_part (c_dir c) (c_sid c) fs0 = [] ->
+      let s := final save load c (init keys fs0) ops in
+      created (s_log s) = map (fun k => (c_dir c, c_sid c, k)) (seq 0 (s_counter s))
+      /\ (forall f, In f (created (s_log s)) -> owned_by (c_dir c) (c_sid c) f = true)
+      /\ NoDup (created (s_log s))
+      /\ removals_ok (s_log s).
+Proof. intros P F. exact (@files_confined P F). Qed.
+
+(** Invariant: at any moment the slot's files are exactly those named by the retained spilled
+    entries, in buffer order, each holding the saved payload that the unlimited slot keeps in RAM
+    at the same position ([mb]). *)
+Theorem C10_files_exact :
+  forall (P F : Type) (save : P -> F) (load : F -> P),
+    (forall p, load (save p) = p) ->
+    forall (c : config) (keys : list nat) (fs0 fs0' : fsys F) (ops : list (op P F)),
+      own_part (c_dir c) (c_sid c) fs0 = [] ->
+      exists m,
+        mb save (s_buf (final save load c (init keys fs0) ops))
+                (s_buf (final save load (unlimited c) (init keys fs0') ops)) m
+        /\ own_part (c_dir c) (c_sid c) (s_fs (final save load c (init keys fs0) ops)) = m.
+Proof. intros P F. exact (@files_exact P F). Qed.
+
+(** After finalize none of the slot's files remains and the buffer is empty — whatever happened
+    before, interference included. *)
+Theorem C10_clean_after_finalize :
+  forall (P F : Type) (save : P -> F) (load : F -> P),
+    (forall p, load (save p) = p) ->
+    forall (c : config) (keys : list nat) (fs0 : fsys F) (ops : list (op P F)),
+      own_part (c_dir c) (c_sid c) fs0 = [] ->
+      let s := final save load c (init keys fs0) (ops ++ [Finalize]) in
+      own_part (c_dir c) (c_sid c) (s_fs s) = [] /\ s_buf s = [].
+Proof. intros P F. exact (@clean_after_finalize P F). Qed.
+
+(** The slot never touches a file that is not its own: the foreign part of the file system is
+    always that of the last interference (of the initial file system if there was none). *)
+Theorem C10_foreign_untouched :
+  forall (P F : Type) (save : P -> F) (load : F -> P),
+    (forall p, load (save p) = p) ->
+    forall (c : config) (keys : list nat) (fs0 : fsys F) (ops : list (op P F)),
+      own_part (c_dir c) (c_sid c) fs0 = [] ->
+      other_part (c_dir c) (c_sid c) (s_fs (final save load c (init keys fs0) ops))
+      = other_part (c_dir c) (c_sid c) (env_last fs0 ops).
+Proof. intros P F. exact (@foreign_untouched P F). Qed.
+
+(** Without interference the file system after finalize IS the initial one (same files, same
+    contents, same order). *)
+Theorem C10_fs_restored :
+  forall (P F : Type) (save : P -> F) (load : F -> P),
+    (forall p, load (save p) = p) ->
+    forall (c : config) (keys : list nat) (fs0 : fsys F) (ops : list (op P F)),
+      own_part (c_dir c) (c_sid c) fs0 = [] ->
+      forallb (fun o => negb (is_env o)) ops = true ->
+      s_fs (final save load c (init keys fs0) (ops ++ [Finalize])) = fs0.
+Proof. intros P F. exact (@fs_restored P F). Qed.
+
+(* ------------------------------------------------------------------ *)
+(** Non-vacuity: concrete runs meeting all hypotheses, with spilled entries that are read back,
+    evicted and finalized, next to foreign files. *)
+Definition idn (x : nat) : nat := x.
+Definition ex_fs0 : fsys nat := [((3, 8, 0)%nat, 99%nat); ((4, 7, 0)%nat, 98%nat)].
+
+(** a LinearTime adapter (id 7, location 3) with room for one payload *)
+Definition ex_cfg : config := mkc KLinear (Some 8) 3%nat 7%nat.
+Definition ex_ops : list (op nat nat) :=
+  [Push 0 10%nat 8; Pull 0 0; Push 10 11%nat 8; Push 20 12%nat 8; Pull 0 5;
+   Env [((3, 8, 1)%nat, 97%nat); ((3, 7, 0)%nat, 55%nat)];
+   Pull 0 15; Push 30 13%nat 8; Pull 0 30; Push 40 14%nat 8].
+
+Example C10_transparent_nonvacuous :
+  (forall p, idn (idn p) = p)
+  /\ own_part (c_dir ex_cfg) (c_sid ex_cfg) ex_fs0 = []
+  /\ delivered idn idn ex_cfg (init [0%nat] ex_fs0) ex_ops
+     = [None; Some (Some [Some 10%nat]); None; None; Some (Some [Some 10%nat; Some 11%nat]); None;
+        Some (Some [Some 11%nat; Some 12%nat]); None; Some (Some [Some 13%nat]); None]
+  /\ delivered idn idn (unlimited ex_cfg) (init [0%nat] []) ex_ops
+     = delivered idn idn ex_cfg (init [0%nat] ex_fs0) ex_ops
+  /\ Forall good_result (delivered idn idn ex_cfg (init [0%nat] ex_fs0) ex_ops).
+Proof.
+  split; [reflexivity|]. split; [vm_compute; reflexivity|]. split; [vm_compute; reflexivity|].
+  split; [vm_compute; reflexivity|]. vm_compute. repeat constructor; discriminate.
+Qed.
+
+Example C10_files_nonvacuous :
+  let s := final idn idn ex_cfg (init [0%nat] ex_fs0) ex_ops in
+  s_buf s = [(30, InRam 13%nat 8); (40, OnDisk (3, 7, 2)%nat)]
+  /\ s_fs s = [((3, 8, 1)%nat, 97%nat); ((3, 7, 2)%nat, 14%nat)]
+  /\ s_log s = [Created (3, 7, 0)%nat; Created (3, 7, 1)%nat; Removed (3, 7, 0)%nat true;
+                Removed (3, 7, 1)%nat true; Created (3, 7, 2)%nat]
+  /\ env_last ex_fs0 ex_ops = [((3, 8, 1)%nat, 97%nat); ((3, 7, 0)%nat, 55%nat)].
+Proof. vm_compute. repeat split; reflexivity. Qed.
+
+(** an Output (two consumers, limit 0: everything spilled); mid-run there are files, after
+    finalize the file system is the initial one *)
+Definition out_cfg : config := mkc KOutput (Some 0) 3%nat 7%nat.
+Definition out_ops : list (op nat nat) :=
+  [Push 0 10%nat 8; Pull 1 0; Push 10 11%nat 8; Push 20 12%nat 8; Pull 2 4; Pull 1 16; Pull 2 20; Pull 1 20].
+
+Example C10_clean_nonvacuous :
+  own_part (c_dir out_cfg) (c_sid out_cfg) ex_fs0 = []
+  /\ forallb (fun o => negb (@is_env nat nat o)) out_ops = true
+  /\ delivered idn idn out_cfg (init [1; 2]%nat ex_fs0) out_ops
+     = [None; Some (Some [Some 10%nat]); None; None; Some (Some [Some 10%nat]);
+        Some (Some [Some 12%nat]); Some (Some [Some 12%nat]); Some (Some [Some 12%nat])]
+  /\ s_fs (final idn idn out_cfg (init [1; 2]%nat ex_fs0) out_ops)
+     = ex_fs0 ++ [((3, 7, 2)%nat, 12%nat)]
+  /\ s_fs (final idn idn out_cfg (init [1; 2]%nat ex_fs0) (out_ops ++ [Finalize])) = ex_fs0.
+Proof. vm_compute. repeat split; reflexivity. Qed.
+
+Print Assumptions C10_transparent.
+Print Assumptions C10_reads_succeed.
+Print Assumptions C10_files_confined.
+Print Assumptions C10_files_exact.
+Print Assumptions C10_clean_after_finalize.
+Print Assumptions C10_foreign_untouched.
+Print Assumptions C10_fs_restored.
